@@ -231,7 +231,7 @@ def _mk_nested(op1):
     return name, harness
 
 
-NNB = 3 if not THOROUGH else 4
+NNB = 3
 for _op in (0, 1, 3, 4, 5, 6):
     _n, _f = _mk_nested(_op)
     globals()[_n] = _f
